@@ -349,21 +349,26 @@ func (w *world) noteSize(size int) {
 	}
 }
 
-// putMsg appends m while no other appender runs: it must get the sequence after the last one.
-func (w *world) putMsg(m msg) error {
+// tryPut appends m while no other appender runs: it must get the sequence after the last one.
+// putErr is the error Put returned (the message is not appended then: no sequence consumed);
+// violation is a broken expectation.
+func (w *world) tryPut(m msg) (putErr, violation error) {
 	b, release := m.materialize()
 	defer release()
 	before := w.q.AppendedSeq()
 	if err := w.q.Put(b); err != nil {
-		return fmt.Errorf("put of %d bytes: %v", m.size, err)
+		if after := w.q.AppendedSeq(); after != before {
+			return err, fmt.Errorf("an append that failed (%v) moved the appended sequence from %d to %d", err, before, after)
+		}
+		return err, nil
 	}
 	after := w.q.AppendedSeq()
 	if after != before+1 {
-		return fmt.Errorf("appended sequence moved from %d to %d by one append", before, after)
+		return nil, fmt.Errorf("appended sequence moved from %d to %d by one append", before, after)
 	}
 	w.okPuts++
 	if prev, ok := w.assigned[after]; ok && prev != m.id {
-		return fmt.Errorf("sequence %d held message %d and was handed out again to a new append", after, prev)
+		return nil, fmt.Errorf("sequence %d held message %d and was handed out again to a new append", after, prev)
 	}
 	w.assigned[after] = m.id
 	if w.room() == m.size {
@@ -374,6 +379,18 @@ func (w *world) putMsg(m msg) error {
 	w.advance(m.size)
 	w.lastSize = m.size
 	w.noteSize(m.size)
+	return nil, nil
+}
+
+// putMsg: an append with no page-store fault armed must succeed.
+func (w *world) putMsg(m msg) error {
+	putErr, violation := w.tryPut(m)
+	if violation != nil {
+		return violation
+	}
+	if putErr != nil {
+		return fmt.Errorf("put of %d bytes: %v", m.size, putErr)
+	}
 	return nil
 }
 
@@ -479,14 +496,22 @@ func (w *world) opBoundaryReopen() {
 		w.opPut()
 	}
 	w.check("before the boundary reopen")
-	w.opReopen()
-	w.check("after the boundary reopen")
+	if rapid.IntRange(0, 3).Draw(w.t, "boundaryWithoutReopen") > 0 {
+		w.opReopen()
+		w.check("after the boundary reopen")
+		w.classes["reopen-at-index-page-boundary"]++
+	}
 	n := rapid.IntRange(1, 3).Draw(w.t, "afterBoundary")
 	for i := 0; i < n; i++ {
+		if i == 0 && rapid.IntRange(0, 1).Draw(w.t, "faultAtBoundary") == 0 {
+			// the append that needs the next index page runs under page-store faults
+			w.classes["fault-put-at-index-page-boundary"]++
+			w.faultScript(w.newMsg(w.genPutSize()))
+			continue
+		}
 		w.opPut()
 		w.check("after an append behind the boundary reopen")
 	}
-	w.classes["reopen-at-index-page-boundary"]++
 }
 
 // tailClass names the kind of the last appended message when it is still above the acknowledged
@@ -734,6 +759,9 @@ func runHistory(t *rapid.T, thorough bool) {
 		}
 		w.opFill()
 		w.check("after the fill")
+		if rapid.IntRange(0, 2).Draw(t, "faultAfterFill") == 0 {
+			w.opFaultyPut()
+		}
 	}
 	t.Repeat(map[string]func(*rapid.T){
 		"put":            func(t *rapid.T) { w.t = t; w.opPut() },
@@ -744,6 +772,8 @@ func runHistory(t *rapid.T, thorough bool) {
 		"crashPut":       func(t *rapid.T) { w.t = t; w.opCrashPut(thorough) },
 		"crashPut2":      func(t *rapid.T) { w.t = t; w.opCrashPut(thorough) },
 		"reopen":         func(t *rapid.T) { w.t = t; w.opReopen() },
+		"faultyPut":      func(t *rapid.T) { w.t = t; w.opFaultyPut() },
+		"reopenFaulty":   func(t *rapid.T) { w.t = t; w.opReopenFaulty() },
 		"ack":            func(t *rapid.T) { w.t = t; w.opAck() },
 		"gc":             func(t *rapid.T) { w.t = t; w.opGC() },
 		"gcInterleaved":  func(t *rapid.T) { w.t = t; w.opGCInterleaved() },
@@ -756,7 +786,8 @@ func runHistory(t *rapid.T, thorough bool) {
 	w.check("after final reopen")
 	w.opPut()
 	w.check("after final append")
-	nt := w.nt > 0 || (w.classes["overlapping-put"] > 0 && w.classes["reopen"] > 1) || w.classes["gc-interleaved-with-appends"] > 0
+	nt := w.nt > 0 || (w.classes["overlapping-put"] > 0 && w.classes["reopen"] > 1) || w.classes["gc-interleaved-with-appends"] > 0 ||
+		w.classes["fault-put-failed"] > 0
 	for c, n := range w.classes {
 		ev.Class("TestQueueHistory", c, n)
 	}
@@ -783,9 +814,15 @@ func TestRollOver(t *testing.T) {
 		for i := 0; i < n; i++ {
 			size := rapid.IntRange(30<<20, 70<<20).Draw(t, "bigSize")
 			m := w.newMsg(size)
-			w.logf("put id=%d size=%d", m.id, m.size)
-			if err := w.putMsg(m); err != nil {
-				w.fatalf("%v", err)
+			faulty := rapid.IntRange(0, 5).Draw(t, "faulty")
+			if faulty == 0 || (faulty < 4 && w.room() < size) {
+				// the big append (it rolls over when the page is used up) runs under page-store faults
+				w.faultScript(m)
+			} else {
+				w.logf("put id=%d size=%d", m.id, m.size)
+				if err := w.putMsg(m); err != nil {
+					w.fatalf("%v", err)
+				}
 			}
 			total += size
 			if rapid.IntRange(0, 2).Draw(t, "small") == 0 {
